@@ -347,6 +347,17 @@ func genRect(rng *rand.Rand, w int) lpoly {
 				rot := rng.Intn(len(hole))
 				hole = append(hole[rot:], hole[:rot]...)
 			}
+			if rng.Intn(4) == 0 && top-bot >= 12 && hb-ha >= 10 {
+				// keyhole hole: the outline of the hole, a slit of one lattice unit at its left side, and an island inside it;
+				// the two ends of the slit fall into one pixel, so the routed hole splits into the outline and the island
+				m := (bot+top)/2/4*4 + 1
+				g := 3 + rng.Intn(2)
+				hole = [][2]int{{ha, m + 1}, {ha, top}, {hb, top}, {hb, bot}, {ha, bot}, {ha, m}, {ha + g, bot + g}, {hb - g, m}, {ha + g, top - g}}
+				if rng.Intn(2) == 0 {
+					rot := rng.Intn(len(hole))
+					hole = append(hole[rot:], hole[:rot]...)
+				}
+			}
 			p = append(p, hole)
 		}
 	}
